@@ -39,7 +39,12 @@ def check(rep, tier, seed):
                  "vcf.gz-empty-first": bgzf_compress(vcf, sizes=[4000], empty_first=True),
                  "vcf.gz-first-1-byte": bgzf_compress(vcf, sizes=[1, 2, 5000]),
                  "vcf.gz-first-2-bytes": bgzf_compress(vcf, sizes=[2, 1, 1, 5000])}
+        # gzip header fields that BGZF leaves free (htslib writes MTIME 0, XFL 0, OS 255; other writers do not)
+        from callsets import bgzf_compress_hdr
+        forms["vcf.gz-hdr-unix"] = bgzf_compress_hdr(vcf, os_=3)
+        forms["vcf.gz-hdr-xfl-mtime"] = bgzf_compress_hdr(vcf, mtime=1700000000, xfl=2, os_=0, sizes=[900])
         hts = bcf_encode_hts(vcf)
+        forms["bcf-hts-hdr-unix-mtime"] = bgzf_compress_hdr(hts, mtime=1, xfl=4, os_=3)
         forms["bcf-hts-raw"] = hts
         forms["bcf-hts"] = bgzf_compress(hts)
         forms["bcf-hts-tiny-blocks"] = bgzf_compress(hts, sizes=[33, 500, 9], empty_every=4)
